@@ -62,7 +62,7 @@ class C12(CheckBase):
         self._ref = {}
 
     def n_plans(self, tier):
-        return 320 if tier == "quick" else 6000
+        return 200 if tier == "quick" else 6000
 
     def time_budget(self, tier):
         return 170 if tier == "quick" else 1700
